@@ -431,11 +431,12 @@ def run(ctx: core.Ctx):
         step = max(1, len(todo) // (ctx.workers * 4) + 1)
         chunks = [todo[i:i + step] for i in range(0, len(todo), step)]
         newdocs = _run_state_chunks(ctx, chunks)
-        for nd in newdocs:
+        for nd in sorted(newdocs, key=lambda d: repr(cache_canon(d))):
             for lab, d in [("scan", nd)] + tampered(nd, paths):
                 c = cache_canon(d)
                 if c not in caches:
-                    caches[c] = (d, lab)
+                    # the label must not depend on which worker finished first
+                    caches[c] = (d, f"{lab.split(':')[0]}#{core.digest(repr(c)) % 10**8:08d}")
     ctx.bounds["fixpoint_rounds"] = rounds
     ctx.bounds["distinct_cache_documents"] = len(caches)
     # (B) histories
